@@ -147,14 +147,14 @@ type tagged struct {
 
 var ldDests = []tagged{
 	{"api", ""}, {"api.html", ""}, {"readme.md", ""}, {"img/logo.png", ""}, {"/guide", ""}, {"guide/", ""}, {"../up", ""}, {"./x", ""},
-	{"a/b/../c", ""}, {"api?x=1#y", ""}, {"?x=1", ""}, {"#frag", ""}, {"//cdn.example.com/lib.js", ""}, {"https://golang.org/doc", ""},
+	{"a/b/../c", ""}, {"api?x=1#y", ""}, {"?x=1", ""}, {"#frag", ""}, {"//cdn.example.com/lib.js", ""}, {"https://golang.org/doc", ""}, {"http://golang.org/doc", ""}, {"ftp://x.y/z.html", ""}, {"HTTP://X.Y/", ""},
 	{"mailto:a@b.c", ""}, {"a%20b", ""}, {"a\\_b", ""}, {"a\\(b\\)", ""}, {"a(b)c", ""}, {"x.HTML", ""}, {".html", ""}, {"a.b.html", ""},
 	{"é.html", ""}, {"a\\\\b", ""}, {"a\\*b.html", ""}, {"/", ""}, {"a//b", ""}, {"a?b\\#c", ""}, {"x\\.html", ""}, {"a;b", ""}, {"a=b&c=d", ""},
 	{"a&amp;b", "entity-in-destination"}, {"x&period;html", "entity-in-destination"}, {"a&#35;b", "entity-in-destination"},
 	{"a\\\"b", "escape-outside-list"}, {"x\\?y", "escape-outside-list"}, {"a\\:b", "escape-outside-list"}, {"a\\/b", "escape-outside-list"},
 	{"x?q=a\u00a0b", "nbsp-in-destination"}, {"a\u00a0b", "nbsp-in-destination"},
 	{"x?\\(", "unbalanced-paren-in-query"}, {"x?a=\\)", "unbalanced-paren-in-query"},
-	{"a%zz", ""}, {"a\\", ""}, {"a b", ""},
+	{"a%zz", ""}, {"a\\", ""}, {"x?q\\", ""}, {"x?a\\b\\*c", ""}, {"a b", ""},
 }
 
 var ldAngleDests = []tagged{
@@ -663,7 +663,64 @@ func init() {
 		for _, d := range docs {
 			cases = append(cases, ldCase{Op: "replace", Base: ldBase, Dir: ldDir, Src: Hx(d.src)})
 		}
+		// applyReplacements itself on valid, sorted, non overlapping lists (adjacent
+		// ranges, a range at offset 0, empty ranges): the output must be the splice
+		type applyCase struct {
+			src  string
+			list [][]string
+		}
+		var applies []applyCase
+		if c.ReplayInput() == nil || c.ReplayInput()["apply_src"] != nil {
+			mk := func() applyCase {
+				src := RandString(c.Rng, 5)
+				var list [][]string
+				pos := 0
+				for pos <= len(src) && len(list) < 6 {
+					st := pos + c.Rng.Intn(2)*c.Rng.Intn(3)
+					sp := st + c.Rng.Intn(3)
+					if sp > len(src) {
+						break
+					}
+					list = append(list, []string{strconv.Itoa(st), strconv.Itoa(sp), Hx(RandString(c.Rng, 2))})
+					pos = sp
+					if sp == st {
+						pos++
+					}
+				}
+				return applyCase{src, list}
+			}
+			if in := c.ReplayInput(); in != nil {
+				var ac applyCase
+				ac.src = Unhx(in["apply_src"].(string))
+				for _, e := range in["list"].([]any) {
+					var row []string
+					for _, x := range e.([]any) {
+						row = append(row, x.(string))
+					}
+					ac.list = append(ac.list, row)
+				}
+				applies = append(applies, ac)
+			} else {
+				for i := 0; i < c.N/2+200; i++ {
+					applies = append(applies, mk())
+				}
+			}
+		}
+		for _, a := range applies {
+			cases = append(cases, ldCase{Op: "apply", Src: Hx(a.src), List: a.list})
+		}
 		first := runHook(cases)
+		for i, a := range applies {
+			r := first[len(docs)+i]
+			c.Count("evaluations")
+			want, _ := splice(a.src, a.list)
+			if r.Panic != "" || Unhx(r.Out) != want {
+				c.Fail("apply-differs", map[string]any{"apply_src": Hx(a.src), "list": a.list, "text": a.src, "out": Unhx(r.Out), "why": fmt.Sprintf("applyReplacements gives %q %s, the splice is %q", Unhx(r.Out), r.Panic, want)})
+			} else if len(a.list) > 0 {
+				c.Count("nontrivial")
+			}
+		}
+		first = first[:len(docs)]
 		// second application on the outputs
 		var again []ldCase
 		for _, r := range first {
